@@ -171,9 +171,15 @@ impl<K: CacheKey + 'static> MemoryCache<K> {
 
                 // Remove expired entries
                 for key in expired_keys {
+                    #[cfg(feature = "verif-hooks")]
+                    crate::verif_hooks::sched_point("mem.cleanup.before_remove");
                     // Only if still expired: the key may have been written again meanwhile
                     if let Some((_, entry)) = storage.remove_if(&key, |_, e| e.is_expired()) {
+                        #[cfg(feature = "verif-hooks")]
+                        crate::verif_hooks::sched_point("mem.cleanup.before_count");
                         entry_count.fetch_sub(1, Ordering::Relaxed);
+                        #[cfg(feature = "verif-hooks")]
+                        crate::verif_hooks::sched_point("mem.cleanup.before_bytes");
                         memory_usage.fetch_sub(entry.size_bytes as u64, Ordering::Relaxed);
                         removed_count += 1;
                         freed_bytes += entry.size_bytes;
